@@ -22,6 +22,7 @@ RULE = (
 ASSUMPTIONS = [
     "label language: LW = ^n?[cCtT][wWhHsS]{2}a?$, stacking = ^s(33|35|53|55)$ (s33 downward, s55 upward, s35 outward, s53 inward), ^[0-9]BPh$, ^[0-9]BR$, else other",
     "labels where an n prefix / a suffix on a non-LW label would be recognised after stripping are undecided (the text is silent)",
+    "non-ASCII labels that only Unicode case mapping turns into an LW label (long s) are undecided; Unicode digits are not digits of the label language",
     "well-formed unit id: >=5 '|'-separated fields with field 5 matching ^-?[0-9]+$; strings only Python's liberal int() accepts are undecided",
 ]
 REQUIRED_MONITORS = ["adapter.unify_classification", "adapter.parse_fr3d_output", "adapter.parse_dssr_output", "adapter.parse_unit_id"]
@@ -30,6 +31,8 @@ LANDMARKS = {
     "n-prefix": ("unify_classification", "fr3d_name = fr3d_name[1:]"),
     "a-suffix": ("unify_classification", "fr3d_name = fr3d_name[:-1]"),
     "lw-keyerror": ("unify_classification", "except KeyError:"),
+    "unknown-br-digit": ("unify_classification", "Unknown base-ribose interaction"),
+    "unknown-bph-digit": ("unify_classification", "Unknown base-phosphate interaction"),
     "line-error-contained": ("_process_interaction_line", "except (ValueError, IndexError) as e:"),
     "dssr-models": ("parse_dssr_output", 'dssr = dssr.get("models")[0].get("parameters", {})'),
 }
@@ -68,6 +71,14 @@ def ref_label(label):
     for c in cands:
         if RE_ST.match(c) or RE_BPH.match(c) or RE_BR.match(c) or RE_LW.match(c):
             return "undecided"
+    if not label.isascii():
+        # "in any letter case": a non-ASCII character whose Unicode case mapping is an edge
+        # letter (long s U+017F -> S) may or may not count as a case variant - the text is silent
+        for v in (label.upper(), label.lower(), label.casefold(), label[:1].lower() + label[1:].upper()):
+            for w in {v, v[1:] if v[:1] in "nN" else v}:
+                for x in {w, w[:-1] if w[-1:] in "aA" else w}:
+                    if RE_LW.match(x) or RE_LW.match(x[:1].lower() + x[1:].upper()):
+                        return "undecided"
     return ("other", None)
 
 
@@ -315,6 +326,10 @@ def _all_labels(tier):
         yield d + "BPh"
         yield d + "BR"
     for s in ("s33", "s35", "s53", "s55", "", "n", "a", "na", "perpendicular", "cWW ", " cWW", "cWB", "10BPh", "xBR"):
+        yield s
+    # characters str.isdigit() accepts but the label language does not: superscript, Arabic-Indic and
+    # full-width digits, also inside LW / stacking labels; non-ASCII letters that upper()/lower() change
+    for s in ("\u00b2BR", "\u0663BPh", "\uff13BPh", "\uff13BR", "\u00b3BPh", "n\u00b2BR", "\u00b2BRa", "s\uff135", "s3\u0665", "c\u1e9eW", "\u0131WW", "cW\u017f", "t\u212aH", "\u00dfWW"):
         yield s
 
 
